@@ -1,9 +1,413 @@
-//! stub
-use super::Ctx;
-use crate::engine::evidence::{Case, Report, Verdict};
-pub fn run(_ctx: &Ctx, _rep: &mut Report) {
-    crate::engine::monitor::machinery_fail("not implemented");
+//! C12 - text parsing is total; a token is a card iff it starts with rank + suit symbols.
+//!
+//! Spaces
+//!   symbol tables: every Unicode scalar value (1,112,064) through CardRank::from_char and CardSuit::from_char
+//!   card tokens:   every scalar as FIRST char x each of the 16 suit symbols, every scalar as SECOND char x each of
+//!                  the 19 rank symbols (39 M strings) through CKCNumber::from_index and parse::get_rank_and_suit;
+//!                  all strings of length <= 3 over a 48-char alphabet (all 35 symbols, separators, NUL, multi-byte
+//!                  chars); every two-char head over that alphabet x 6 tails (thorough: length <= 4, and heads over
+//!                  a ~2,000-char alphabet)
+//!   hand parsers:  all token sequences of length 0..=7 over 7 tokens (cards in four spellings, "XX", the one-char
+//!                  "A", a card with a tail) x 5 separator styles (single, double, tab, newline, U+3000; odd styles
+//!                  also lead and trail) through TryFrom<&str> of Two..Seven, parse::five_from_index and
+//!                  BinaryCard::from_index
+//!   round trip:    52 cards x 2 renderings
+//! Oracle: two-char parser through two literal symbol sets; hand-rolled whitespace tokenizer (oracle::misc).
+//! Fewer tokens than slots => Err(InvalidIndex) / None; exactly as many => slot k = token k; more: not judged.
+use super::{confirm, sample_json, Ctx};
+use crate::engine::enumerate::{par_parts, tuple_decode};
+use crate::engine::evidence::{Acc, Case, Report, Verdict};
+use crate::engine::monitor::{self, guard};
+use crate::oracle::cards::{deck, show_word, show_words, word_to_card, Card};
+use crate::oracle::misc::{parse_token, rank_of_symbol, suit_of_symbol, tokens, RANK_SYMBOLS, SUIT_SYMBOLS};
+use ckc_rs::cards::binary_card::{BinaryCard, BC64};
+use ckc_rs::cards::five::Five;
+use ckc_rs::cards::four::Four;
+use ckc_rs::cards::seven::Seven;
+use ckc_rs::cards::six::Six;
+use ckc_rs::cards::three::Three;
+use ckc_rs::cards::two::Two;
+use ckc_rs::{CKCNumber, CardRank, CardSuit, HandError, PokerCard};
+use std::time::Instant;
+
+/// `TryFrom<&'static str>` demands a 'static string although the parsers only read it and return owned arrays;
+/// the harness extends the lifetime for the duration of the call instead of leaking millions of strings.
+fn as_static(s: &str) -> &'static str {
+    unsafe { std::mem::transmute::<&str, &'static str>(s) }
 }
-pub fn judge(_case: &Case) -> Verdict {
-    Verdict::NotJudged("not implemented".into())
+
+fn rank_disc(c: char) -> u8 {
+    rank_of_symbol(c).map(|r| r + 2).unwrap_or(0)
+}
+fn suit_disc(c: char) -> u8 {
+    suit_of_symbol(c).map(|s| s + 1).unwrap_or(0)
+}
+
+#[derive(Debug, PartialEq)]
+enum HandOut {
+    Ok(Vec<u32>),
+    InvalidIndex,
+    OtherErr(String),
+}
+fn try_size(n: usize, st: &'static str) -> HandOut {
+    fn conv<T>(r: Result<T, HandError>, f: impl Fn(T) -> Vec<u32>) -> HandOut {
+        match r {
+            Ok(h) => HandOut::Ok(f(h)),
+            Err(HandError::InvalidIndex) => HandOut::InvalidIndex,
+            Err(e) => HandOut::OtherErr(format!("{:?}", e)),
+        }
+    }
+    match n {
+        2 => conv(Two::try_from(st), |h| h.to_arr().to_vec()),
+        3 => conv(Three::try_from(st), |h| h.to_arr().to_vec()),
+        4 => conv(Four::try_from(st), |h| h.to_arr().to_vec()),
+        5 => conv(Five::try_from(st), |h| h.to_arr().to_vec()),
+        6 => conv(Six::try_from(st), |h| h.to_arr().to_vec()),
+        _ => conv(Seven::try_from(st), |h| h.to_arr().to_vec()),
+    }
+}
+
+/// Case kinds: "rank_char" [scalar]; "suit_char" [scalar]; "token" (text); "hand" (text); "roundtrip" [card word].
+pub fn judge(case: &Case) -> Verdict {
+    match case.kind.as_str() {
+        "rank_char" | "suit_char" => {
+            let ch = match case.words.first().and_then(|u| char::from_u32(*u as u32)) {
+                Some(c) => c,
+                None => return Verdict::NotJudged("not a scalar value".into()),
+            };
+            let (exp, got) = if case.kind == "rank_char" { (rank_disc(ch), guard(|| CardRank::from_char(ch) as u8)) } else { (suit_disc(ch), guard(|| CardSuit::from_char(ch) as u8)) };
+            match got {
+                Err(p) => Verdict::Violated { class: format!("panic:{}", case.kind), expected: format!("{}", exp), observed: format!("panic: {}", p) },
+                Ok(g) if g != exp => Verdict::Violated { class: format!("{}:{}", case.kind, if exp == 0 { "accepts-a-non-symbol" } else { "rejects-or-misreads-a-symbol" }), expected: format!("member {} for {:?} (U+{:04X})", exp, ch, ch as u32), observed: format!("member {}", g) },
+                Ok(_) => Verdict::Holds,
+            }
+        }
+        "token" => {
+            let s = match &case.text {
+                Some(s) => s.clone(),
+                None => return Verdict::NotJudged("no text".into()),
+            };
+            let exp = parse_token(&s);
+            match guard(|| {
+                let w = CKCNumber::from_index(&s);
+                let (r, su) = ckc_rs::parse::get_rank_and_suit(&s);
+                (w, r as u8, su as u8)
+            }) {
+                Err(p) => Verdict::Violated { class: "panic:token".into(), expected: show_word(exp), observed: format!("panic: {}", p) },
+                Ok((w, r, su)) => {
+                    if w != exp {
+                        return Verdict::Violated { class: format!("token:{}", if exp == 0 { "non-card-token-gives-a-card" } else if w == 0 { "card-token-gives-blank" } else { "wrong-card" }), expected: format!("{} for token {:?}", show_word(exp), s), observed: show_word(w) };
+                    }
+                    // get_rank_and_suit: with two or more chars, the two symbol tables applied to the first two chars
+                    let mut it = s.chars();
+                    let (er, es) = match (it.next(), it.next()) {
+                        (Some(a), Some(b)) => (rank_disc(a), suit_disc(b)),
+                        _ => (0, 0),
+                    };
+                    if (r, su) != (er, es) {
+                        return Verdict::Violated { class: "get_rank_and_suit:wrong-members".into(), expected: format!("({}, {}) for {:?}", er, es, s), observed: format!("({}, {})", r, su) };
+                    }
+                    Verdict::Holds
+                }
+            }
+        }
+        "hand" => {
+            let s = match &case.text {
+                Some(s) => s.clone(),
+                None => return Verdict::NotJudged("no text".into()),
+            };
+            let toks = tokens(&s);
+            let ws: Vec<u32> = toks.iter().map(|t| parse_token(t)).collect();
+            let l = toks.len();
+            let st = as_static(&s);
+            for n in 2..=7usize {
+                if l > n {
+                    continue; // statement is silent about extra tokens
+                }
+                let exp = if l < n { HandOut::InvalidIndex } else { HandOut::Ok(ws.clone()) };
+                match guard(|| try_size(n, st)) {
+                    Err(p) => return Verdict::Violated { class: format!("panic:hand:{}-slot", n), expected: format!("{:?}", exp), observed: format!("panic: {}", p) },
+                    Ok(got) if got != exp => {
+                        return Verdict::Violated {
+                            class: format!("hand:{}-slot:{}", n, if l < n { "too-few-tokens-not-rejected" } else { "slots-not-filled-in-token-order" }),
+                            expected: format!("{} for {:?} ({} tokens)", match &exp { HandOut::Ok(v) => format!("Ok([{}])", show_words(v)), x => format!("{:?}", x) }, s, l),
+                            observed: match &got { HandOut::Ok(v) => format!("Ok([{}])", show_words(v)), x => format!("{:?}", x) },
+                        }
+                    }
+                    Ok(_) => {}
+                }
+            }
+            if l <= 5 {
+                let exp = if l < 5 { None } else { Some(ws.clone()) };
+                match guard(|| ckc_rs::parse::five_from_index(&s).map(|a| a.to_vec())) {
+                    Err(p) => return Verdict::Violated { class: "panic:five_from_index".into(), expected: format!("{:?}", exp), observed: format!("panic: {}", p) },
+                    Ok(got) if got != exp => return Verdict::Violated { class: "five_from_index:wrong".into(), expected: format!("{:?} for {:?}", exp, s), observed: format!("{:?}", got) },
+                    Ok(_) => {}
+                }
+            }
+            let mut eb = 0u64;
+            for w in &ws {
+                if let Some(c) = word_to_card(*w) {
+                    eb |= c.bit();
+                }
+            }
+            match guard(|| BinaryCard::from_index(&s)) {
+                Err(p) => Verdict::Violated { class: "panic:BinaryCard::from_index".into(), expected: format!("{:#x}", eb), observed: format!("panic: {}", p) },
+                Ok(b) if b != eb => Verdict::Violated { class: "BinaryCard::from_index:wrong-set".into(), expected: format!("{:#x} for {:?}", eb, s), observed: format!("{:#x}", b) },
+                Ok(_) => Verdict::Holds,
+            }
+        }
+        "roundtrip" => {
+            let w = case.words.first().copied().unwrap_or(0) as u32;
+            if word_to_card(w).is_none() {
+                return Verdict::NotJudged("a real card".into());
+            }
+            match guard(|| {
+                let a = format!("{}{}", w.get_rank_char(), w.get_suit_char());
+                let b = format!("{}{}", w.get_rank_char(), w.get_suit_letter());
+                (CKCNumber::from_index(&a), CKCNumber::from_index(&b), a, b)
+            }) {
+                Err(p) => Verdict::Violated { class: "panic:roundtrip".into(), expected: show_word(w), observed: format!("panic: {}", p) },
+                Ok((x, y, a, b)) if x != w || y != w => Verdict::Violated { class: "roundtrip:render-then-parse".into(), expected: format!("{} from {:?} and {:?}", show_word(w), a, b), observed: format!("{} and {}", show_word(x), show_word(y)) },
+                Ok(_) => Verdict::Holds,
+            }
+        }
+        _ => Verdict::NotJudged("unknown kind".into()),
+    }
+}
+
+#[inline]
+fn check_token(acc: &mut Acc, s: &str) {
+    acc.cases += 1;
+    acc.calls += 2;
+    let exp = parse_token(s);
+    if exp != 0 {
+        acc.nontrivial += 1;
+        acc.hist[0] += 1;
+    }
+    let mut it = s.chars();
+    let (er, es) = match (it.next(), it.next()) {
+        (Some(a), Some(b)) => (rank_disc(a), suit_disc(b)),
+        _ => (0, 0),
+    };
+    let ok = matches!(guard(|| {
+        let (r, su) = ckc_rs::parse::get_rank_and_suit(s);
+        (CKCNumber::from_index(s), r as u8, su as u8)
+    }), Ok((w, r, su)) if w == exp && r == er && su == es);
+    if !ok {
+        match confirm(judge, Case::text("token", s, &[])) {
+            Some(v) => acc.violate(v),
+            None => monitor::machinery_fail(&format!("C12 token mismatch on {:?} not reproduced", s)),
+        }
+    }
+}
+
+fn alphabet48() -> Vec<char> {
+    let mut v: Vec<char> = RANK_SYMBOLS.chars().chain(SUIT_SYMBOLS.chars()).collect();
+    v.extend([' ', '\t', '\u{0}', '\u{3000}', '_', 'x', 'X', 'é', 'Ж', '中', '😀', '1', '-']);
+    v
+}
+
+pub fn run(ctx: &Ctx, rep: &mut Report) {
+    let thorough = ctx.tier.thorough();
+    // (a) symbol tables over every scalar value
+    {
+        let t0 = Instant::now();
+        let kind = monitor::kind_id("rank_char");
+        let accs = par_parts(0x110, |p| {
+            let mut acc = Acc::new(2);
+            monitor::beat(kind, &[(p as u64) << 12]);
+            for u in (p as u32) << 12..(p as u32 + 1) << 12 {
+                if let Some(ch) = char::from_u32(u) {
+                    acc.cases += 1;
+                    acc.calls += 2;
+                    let (er, es) = (rank_disc(ch), suit_disc(ch));
+                    if er != 0 || es != 0 {
+                        acc.nontrivial += 1;
+                    }
+                    if !matches!(guard(|| (CardRank::from_char(ch) as u8, CardSuit::from_char(ch) as u8)), Ok((r, s)) if r == er && s == es) {
+                        let mut found = false;
+                        for k in ["rank_char", "suit_char"] {
+                            if let Some(v) = confirm(judge, Case::new(k, &[u as u64])) {
+                                found = true;
+                                acc.violate(v);
+                            }
+                        }
+                        if !found {
+                            monitor::machinery_fail("C12 symbol mismatch not reproduced");
+                        }
+                    }
+                }
+            }
+            acc
+        });
+        let acc = Acc::merged(accs);
+        rep.guard("1,112,064 scalar values, 35 of them symbols", acc.cases == 1_112_064 && acc.nontrivial == 35, format!("{} scalars, {} symbols", acc.cases, acc.nontrivial));
+        rep.add_space("every Unicode scalar value through both symbol tables", &acc, t0, "");
+    }
+    // (b) one free char x all symbols of the other table
+    {
+        let t0 = Instant::now();
+        let kind = monitor::kind_id("token");
+        let suits: Vec<char> = SUIT_SYMBOLS.chars().collect();
+        let ranks: Vec<char> = RANK_SYMBOLS.chars().collect();
+        let accs = par_parts(0x110, |p| {
+            let mut acc = Acc::new(2);
+            let mut buf = String::with_capacity(16);
+            monitor::beat(kind, &[(p as u64) << 12]);
+            for u in (p as u32) << 12..(p as u32 + 1) << 12 {
+                if let Some(ch) = char::from_u32(u) {
+                    for s in &suits {
+                        buf.clear();
+                        buf.push(ch);
+                        buf.push(*s);
+                        check_token(&mut acc, &buf);
+                    }
+                    for r in &ranks {
+                        buf.clear();
+                        buf.push(*r);
+                        buf.push(ch);
+                        check_token(&mut acc, &buf);
+                    }
+                }
+            }
+            acc
+        });
+        let acc = Acc::merged(accs);
+        rep.guard("free-char sweep: 19 x 16 card heads met from both sides", acc.hist[0] == 2 * 19 * 16, format!("{}", acc.hist[0]));
+        rep.add_space("every scalar as first char x 16 suit symbols, as second char x 19 rank symbols", &acc, t0, "through CKCNumber::from_index and parse::get_rank_and_suit");
+    }
+    // (c) short strings and heads x tails over the 48-char alphabet
+    {
+        let t0 = Instant::now();
+        let al = alphabet48();
+        let maxlen = if thorough { 4 } else { 3 };
+        let kind = monitor::kind_id("token");
+        let mut acc = Acc::new(2);
+        check_token(&mut acc, "");
+        for len in 1..=maxlen {
+            let total = (al.len() as u64).pow(len as u32);
+            let accs = par_parts(48, |p| {
+                let mut a = Acc::new(2);
+                let mut idx = vec![0usize; len];
+                let mut s = String::new();
+                monitor::beat(kind, &[len as u64, p as u64]);
+                for t in (total * p as u64 / 48)..(total * (p as u64 + 1) / 48) {
+                    tuple_decode(t, al.len() as u64, &mut idx);
+                    s.clear();
+                    for i in (0..len).rev() {
+                        s.push(al[idx[i]]);
+                    }
+                    check_token(&mut a, &s);
+                }
+                a
+            });
+            acc.merge(Acc::merged(accs));
+        }
+        let tails = ["", "x", " ", "♠", "AS", "♠♠♠♠♠♠♠♠♠♠ long tail 😀 \u{0} end"];
+        let heads: Vec<char> = if thorough {
+            let mut h = al.clone();
+            for u in (0x20u32..0x250).chain(0x370..0x400).chain(0x400..0x460).chain(0x2500..0x2580).chain(0x2660..0x2668).chain(0xFF10..0xFF5B).chain(0x1F0A0..0x1F0F6) {
+                if let Some(c) = char::from_u32(u) {
+                    if !h.contains(&c) {
+                        h.push(c);
+                    }
+                }
+            }
+            h
+        } else {
+            al.clone()
+        };
+        let accs = par_parts(heads.len(), |i| {
+            let mut a = Acc::new(2);
+            let mut s = String::new();
+            for b in &heads {
+                for t in tails {
+                    s.clear();
+                    s.push(heads[i]);
+                    s.push(*b);
+                    s.push_str(t);
+                    check_token(&mut a, &s);
+                }
+            }
+            monitor::tick();
+            a
+        });
+        acc.merge(Acc::merged(accs));
+        rep.add_space(&format!("all strings of length <= {} over 48 chars; all two-char heads over {} chars x 6 tails", maxlen, heads.len()), &acc, t0, "empty, one-char, multi-byte, NUL, separators inside tokens");
+    }
+    // (d) hand parsers
+    {
+        let t0 = Instant::now();
+        let toks = ["AS", "kh", "T♦", "0c", "XX", "A", "2♣zz"];
+        let seps = [" ", "  ", "\t", "\n", "\u{3000}"];
+        let kind = monitor::kind_id("hand");
+        let maxl = 7usize;
+        let mut acc = Acc::new(10);
+        for len in 0..=maxl {
+            let total = (toks.len() as u64).pow(len as u32);
+            let nparts = 49.min(total as usize).max(1);
+            let accs = par_parts(nparts, |p| {
+                let mut a = Acc::new(10);
+                let mut idx = vec![0usize; len];
+                let mut s = String::new();
+                monitor::beat(kind, &[len as u64, p as u64]);
+                for t in (total * p as u64 / nparts as u64)..(total * (p as u64 + 1) / nparts as u64) {
+                    tuple_decode(t, toks.len() as u64, &mut idx);
+                    for (si, sep) in seps.iter().enumerate() {
+                        s.clear();
+                        if si % 2 == 1 {
+                            s.push_str(sep);
+                        }
+                        for (k, i) in idx.iter().enumerate() {
+                            if k > 0 {
+                                s.push_str(sep);
+                            }
+                            s.push_str(toks[*i]);
+                        }
+                        if si % 2 == 1 {
+                            s.push_str(sep);
+                        }
+                        a.cases += 1;
+                        a.calls += 8;
+                        a.hist[len] += 1;
+                        a.nontrivial += 1;
+                        // fast path = the judge itself (strings are cheap); confirm on violation
+                        if let Verdict::Violated { .. } = judge(&Case::text("hand", &s, &[])) {
+                            match confirm(judge, Case::text("hand", &s, &[])) {
+                                Some(v) => a.violate(v),
+                                None => monitor::machinery_fail("C12 hand verdict not reproduced"),
+                            }
+                        }
+                    }
+                }
+                a
+            });
+            acc.merge(Acc::merged(accs));
+        }
+        for l in 0..=maxl {
+            rep.hist_add(&format!("hand_strings_with_{}_tokens", l), acc.hist[l]);
+        }
+        rep.add_space("hand parsers: all token sequences of length 0..=7 over 7 tokens x 5 separator styles", &acc, t0, "TryFrom<&str> of Two..Seven, parse::five_from_index, BinaryCard::from_index");
+        rep.sample(sample_json("hand", "\u{3000}AS\u{3000}kh\u{3000}", &format!("{:?}", Two::try_from("\u{3000}AS\u{3000}kh\u{3000}"))));
+        rep.sample(sample_json("hand", "AS kh T♦ 0c", &format!("{:?}", Five::try_from("AS kh T♦ 0c"))));
+    }
+    // (e) round trip
+    {
+        let t0 = Instant::now();
+        let mut acc = Acc::new(1);
+        for c in deck() {
+            acc.cases += 1;
+            acc.calls += 2;
+            acc.nontrivial += 1;
+            if let Some(v) = confirm(judge, Case::w32("roundtrip", &[c.word()])) {
+                acc.violate(v);
+            }
+        }
+        rep.add_space("52 cards x 2 renderings parse back to the same card", &acc, t0, "");
+    }
+    rep.sample(sample_json("token", "t♡ / 0c / 1s / A", &format!("{} / {} / {} / {}", show_word(CKCNumber::from_index("t♡")), show_word(CKCNumber::from_index("0c")), show_word(CKCNumber::from_index("1s")), show_word(CKCNumber::from_index("A")))));
+    let _ = Card::new(0, 0);
+    rep.rule = "distinct scalar values and distinct strings; non-trivial = symbols, tokens that denote a card, and every hand string (each has a definite token count)".into();
+    rep.bound = format!("symbol tables complete; tokens: one free char (all scalars) x all symbols of the other table, all strings of length <= {} over a 48-char alphabet, two-char heads x 6 tails; hands: token sequences up to 7 tokens over 7 tokens x 5 separator styles. The parsers read at most two chars of a token, so longer tails are data the code cannot observe", if thorough { 4 } else { 3 });
 }
